@@ -1098,6 +1098,10 @@ func (c *compiler) compileWithStatement(v *ast.WithStatement, needResult bool) {
 	}
 	c.compileExpression(v.Object).emitGetter(true)
 	c.emit(enterWith)
+	if needResult {
+		// the value of the statement is that of its body, or undefined
+		c.emit(clearResult)
+	}
 	c.block = &block{
 		outer:      c.block,
 		typ:        blockWith,
